@@ -1121,6 +1121,29 @@ def np_argsort(x):
     return argsort(to_tensor(x, fresh=False))
 
 
+@model("numpy.random.random")
+def np_random_random(size=None):
+    """module-level numpy.random.random: uniform on [0, 1); every call and every element a fresh value"""
+    c = ctx()
+    if c.concrete:
+        import numpy as _np
+        r = _np.random.random(size=None if size is None else int(unwrap(size)))
+        return float(r) if size is None else to_tensor([float(v) for v in r])
+    if size is None:
+        u = c.fresh("u01", "Real")
+        c.defs.append(z3.And(u >= 0, u < 1))
+        c.trace.append(("draw", "module_random", u))
+        return Sym(u)
+    f = z3.Function(str(c.fresh("u01v", "Int")), z3.IntSort(), z3.RealSort())
+    c.add_forall((size,), lambda i: z3.And(f(S.z(i)) >= 0, f(S.z(i)) < 1), "u01")
+    n_ = unwrap(size)
+    if isinstance(n_, int):
+        for i in range(n_):
+            c.defs.append(z3.And(f(z3.IntVal(i)) >= 0, f(z3.IntVal(i)) < 1))
+    c.trace.append(("draw", "module_random_vector", f))
+    return Tensor((size,), lambda i: Sym(f(S.z(i))))
+
+
 @model("numpy.random.permutation")
 def np_permutation(n):
     """a uniformly random permutation of 0..n-1: here any permutation"""
@@ -1155,7 +1178,10 @@ def py_sorted(I, x, key, reverse):
         order = sorted(range(len(items)), key=lambda i: unwrap(keys[i]))
         return [items[i] for i in order]
     if len(items) > 5:
-        raise Unsupported("sorted() of more than 5 items with symbolic keys")
+        # too many items for a case split on the comparisons: the permutation contract of the built-in instead
+        from .interp import _select
+        snap = list(items)
+        return sorted_symbolic(I, SymList(len(snap), lambda i: _select(snap, i)), key)
     order = []
     for i in range(len(items)):          # stable insertion sort, forking on each comparison
         pos = len(order)
@@ -1170,6 +1196,8 @@ def sorted_symbolic(I, x, key):
     contract of the built-in; stability is not modelled)"""
     c = ctx()
     n = I.symbolic_length(x)
+    if n is None and isinstance(x, SymList):
+        n = x.length()                   # (a concrete length: too many items for the case split)
     src = x.copy() if isinstance(x, SymList) else SymList(n, lambda i: I.iter_at(x, i))
     tag = str(c.fresh("sortedp", "Int"))
     p = z3.Function(tag, z3.IntSort(), z3.IntSort())
@@ -1250,6 +1278,14 @@ def sp_solve(A, b, **kw):
 
 
 MODELS["numpy.linalg.solve"] = sp_solve
+
+
+def _it_chain_from_iterable(parts):
+    return it_chain(*list(parts))
+
+
+it_chain.from_iterable = _it_chain_from_iterable
+it_chain.vc_attrs = ("from_iterable",)
 
 
 @model("inspect.isclass")
